@@ -49,6 +49,7 @@ type Op struct {
 	SArg    string `json:"sarg,omitempty"`
 	IArg    int    `json:"iarg,omitempty"`
 	Field   string `json:"field,omitempty"`
+	Defer   bool   `json:"defer,omitempty"`   // exp: keep the returned reader unread until the matching "read" op (IArg = Dst of the exp)
 	Sweep   bool   `json:"sweep,omitempty"`   // C19: sweep err@k over all k for this export
 	HasTemp bool   `json:"has_temp,omitempty"` // C12: generator knows the v2 temporal group is in Vec
 	HasEnv  bool   `json:"has_env,omitempty"`
